@@ -14,8 +14,8 @@ import (
 func init() {
 	register(Property{ID: "C09", Level: "other", Run: runC09,
 		Technique: "static analysis: walk of the static type graph that env.loadEnvInternal meets at run time (conf.Conf, conf.Path behind OptionalPath), sibling agreement between every UnmarshalEnv and the JSON decoder of the same type (go/ssa), must-precede ordering on conf.Load, struct-tag rules",
-		Text: "Decides: every type reachable from conf.Conf through json-visible fields is one the environment loader supports (env.Unmarshaler, exactly string/int/uint/float64/bool, map[string]*T, struct, []string/[]uint/[]float64/[]struct, behind at most one pointer) - anything else makes Load fail or panic; every UnmarshalEnv funnels the value into the JSON decoder of the same receiver (directly, through jsonwrapper.Unmarshal, or - for OptionalPath - by recursing with the same prefix), so file and environment share one parser and one validation; no type whose file decoder is a custom UnmarshalJSON is filled field by field by the environment loader (that would bypass the file-side validation); conf.Load applies file, then RTSP_ variables, then MTX_ variables, then Validate, all on the same object, on every successful path; json tags are of the two forms the key derivation understands and give distinct upper-case keys per struct; a list of structs addressed by MTX_<LIST>_<n>_<FIELD> is built in index order: the items are visited by a counter from 0 in steps of 1, the key of an item is the decimal rendering of that same counter, preloaded positions are merged in place at Index(counter), reflect.Append (which places at Len) is used only past the existing positions, and the visit does not end while variables for the current position exist - so item n lands at position n as in YAML. Does not decide lists whose indexes have gaps (not expressible in YAML), a different but correct construction order (e.g. indexes parsed to integers and sorted numerically would have to be re-justified), nor value-level equivalence: quoting of environment strings into JSON without escaping, 32-bit parsing of int/uint, map keys are lower-cased and cannot contain '_'.",
-		Note: "trusted: reflect semantics of env.loadEnvInternal (its case analysis is mirrored by the walk; the mirror is cross-checked against the type identities and kinds the function tests), encoding/json"})
+		Text:      "Decides: every type reachable from conf.Conf through json-visible fields is one the environment loader supports (env.Unmarshaler, exactly string/int/uint/float64/bool, map[string]*T, struct, []string/[]uint/[]float64/[]struct, behind at most one pointer) - anything else makes Load fail or panic; every UnmarshalEnv funnels the value into the JSON decoder of the same receiver (directly, through jsonwrapper.Unmarshal, or - for OptionalPath - by recursing with the same prefix), so file and environment share one parser and one validation; no type whose file decoder is a custom UnmarshalJSON is filled field by field by the environment loader (that would bypass the file-side validation); conf.Load applies file, then RTSP_ variables, then MTX_ variables, then Validate, all on the same object, on every successful path; json tags are of the two forms the key derivation understands and give distinct upper-case keys per struct; a list of structs addressed by MTX_<LIST>_<n>_<FIELD> is built in index order: the items are visited by a counter from 0 in steps of 1, the key of an item is the decimal rendering of that same counter, preloaded positions are merged in place at Index(counter), reflect.Append (which places at Len) is used only past the existing positions, and the visit does not end while variables for the current position exist - so item n lands at position n as in YAML. Does not decide lists whose indexes have gaps (not expressible in YAML), a different but correct construction order (e.g. indexes parsed to integers and sorted numerically would have to be re-justified), nor value-level equivalence: quoting of environment strings into JSON without escaping, 32-bit parsing of int/uint, map keys are lower-cased and cannot contain '_'.",
+		Note:      "trusted: reflect semantics of env.loadEnvInternal (its case analysis is mirrored by the walk; the mirror is cross-checked against the type identities and kinds the function tests), encoding/json"})
 	addMutants(
 		Mutant{"C09", "duration-env-own-parser", "internal/conf/duration.go",
 			"	return d.UnmarshalJSON([]byte(`\"` + v + `\"`))\n}", "	tmp, err := time.ParseDuration(v)\n	*d = Duration(tmp)\n	return err\n}", "C09.env_reaches_json"},
